@@ -84,6 +84,11 @@ type StandardUpgradeableBeaconState struct {
 	common.BeaconState
 }
 
+// UnwrapBeaconState exposes the current fork-specific state (common.BeaconStateUnwrapper).
+func (s *StandardUpgradeableBeaconState) UnwrapBeaconState() common.BeaconState {
+	return s.BeaconState
+}
+
 func (s *StandardUpgradeableBeaconState) UpgradeMaybe(ctx context.Context, spec *common.Spec, epc *common.EpochsContext) error {
 	slot, err := s.BeaconState.Slot()
 	if err != nil {
